@@ -33,6 +33,8 @@ structure FInfo where
   deferred : Option String := none
   /-- name of the definition the first collected occurrence was validated against -/
   objDef : String := ""
+  /-- the field is a plain struct field of the parent object's Go model (`return obj.Field, nil`) -/
+  plain : Bool := false
 deriving Repr, Inhabited
 
 inductive Shape where
@@ -92,7 +94,8 @@ def planFields (s : Schema) (col : Collector) :
           | none => none      -- "unknown field": the validator has already run
           | some fd =>
             (planType s col fuel fd.type cf.sels).map fun sh =>
-              ({ alias := cf.alias, name := cf.name, dirs := fd.dirs, deferred := cf.deferred, objDef := cf.objDef }, sh)
+              ({ alias := cf.alias, name := cf.name, dirs := fd.dirs, deferred := cf.deferred, objDef := cf.objDef,
+                 plain := fd.plain }, sh)
 
 def planType (s : Schema) (col : Collector) : Nat → TRef → List Sel → Option Shape
   | 0, _, _ => none
@@ -178,10 +181,16 @@ inductive DOut where
   | block                      -- returns (nil, nil) without calling `next`
 deriving Repr, Inhabited
 
-/-- user code, keyed by response path (a resolver is invoked at most once per path) -/
+/-- user code, keyed by response path (a resolver is invoked at most once per path); `plain objPath name`
+    is the value the parent's resolver stored in the struct field `name` of the object at `objPath` -/
 structure Oracle where
   res : Path → ROut
   dir : Path → String → DOut
+  plain : Path → String → ROut := fun _ _ => .missing
+
+/-- what the field's own "resolver" yields: a resolver call, or the read of a struct field -/
+def Oracle.outcome (o : Oracle) (fi : FInfo) (p : Path) : ROut :=
+  if fi.plain then o.plain p.dropLast fi.name else o.res p
 
 inductive Out where
   | null
@@ -212,6 +221,9 @@ def St.addErr (st : St) (p : Path) (m : String) : St := { st with errs := st.err
 def St.hasFieldError (st : St) (p : Path) : Bool := st.errs.any (·.path == p)
 def St.invoked (st : St) (p : Path) (hook : String) : St :=
   { st with invs := st.invs ++ [(pathStr p, hook)] }
+/-- a resolver invocation is recorded unless the field is a plain struct field -/
+def St.resolved (st : St) (plain : Bool) (p : Path) : St :=
+  if plain then st else st.invoked p "resolver"
 
 def mustNotBeNull : String := "must not be null"
 def elementIsNull : String := "the requested element is null which the schema does not allow"
@@ -304,14 +316,14 @@ def completeField (o : Oracle) (fi : FInfo) (sh : Shape) (p : Path) (st : St) : 
   | (.block, st1) =>
     (.null, if sh.nn && !st1.hasFieldError p then st1.addErr p mustNotBeNull else st1)
   | (.reached, st1) =>
-    match o.res p with
+    match o.outcome fi p with
     | .missing => (.null, { st1 with unlogged := st1.unlogged ++ [pathStr p] })
-    | .err m => (.null, (st1.invoked p "resolver").addErr p m)
+    | .err m => (.null, (st1.resolved fi.plain p).addErr p m)
     | .panic m =>
-      let st2 := st1.invoked p "resolver"
+      let st2 := st1.resolved fi.plain p
       (.null, { st2.addErr p ("recovered: " ++ m) with recovers := st2.recovers + 1 })
     | .val v =>
-      let st2 := st1.invoked p "resolver"
+      let st2 := st1.resolved fi.plain p
       if sh.isIface && v.isNull then
         -- a nil Go interface boxed into `any` is an untyped nil: `if resTmp == nil`
         (.null, if sh.nn && !st2.hasFieldError p then st2.addErr p mustNotBeNull else st2)
